@@ -94,7 +94,7 @@ Lemma chk_C02_step_model cfg s e s' acts : inv cfg s -> step cfg s e = (s', acts
   chk_C02_step (listing_of s) {| os_ev := e; os_acts := acts; os_allocs := listing_of s' |} = true.
 Proof.
   intros _ Hs. unfold chk_C02_step. cbn [os_ev os_acts].
-  destruct e as [src tid c rq unk|src p dat|src n dat|relay from dat|dt|relay];
+  destruct e as [src tid c rq unk|src p dat|src n dat|relay from dat|dt|relay|csrc|];
     try (rewrite (todata_nil_of _ _ _ _ _ Hs I); reflexivity).
   cbn [step] in Hs. apply h_peer_spec in Hs as [_ [->|(a & Hf & _ & _ & [(c & Hc & ->)|(_ & pm & Hp & ->)])]]; [reflexivity| |].
   - cbn [todata filter]. rewrite listing_of_map, find_orelay_listing, Hf. cbn [option_map obs_of oa_client].
@@ -136,18 +136,39 @@ Proof.
   rewrite !app_length. cbn [obs_of oa_perms oa_chans]. rewrite !map_length. lia.
 Qed.
 
+Lemma no_client_listing src l : ~ In src (map a_client l) ->
+  existsb (fun a => addr_eqb (oa_client a) src) (map obs_of l) = false.
+Proof.
+  induction l as [|a l IH]; cbn [map existsb]; intros H; [reflexivity|]. cbn [obs_of oa_client].
+  destruct (addr_eqb (a_client a) src) eqn:E.
+  - apply addr_eqb_eq in E. exfalso. apply H. left. exact E.
+  - apply IH. intros Hc. apply H. right. exact Hc.
+Qed.
+
+Lemma ended_ok_model cfg s e s' acts : inv cfg s -> step cfg s e = (s', acts) -> ended_ok e (listing_of s') = true.
+Proof.
+  intros [Hnd _] Hs. destruct e as [| | | | | |csrc|]; try reflexivity; cbn [step] in Hs; cbn [ended_ok].
+  - unfold h_ctl_close in Hs. rewrite listing_of_map.
+    destruct (find_alloc csrc (allocs s)) as [a|] eqn:Hf; inversion Hs; subst; cbn [allocs set_allocs].
+    + apply find_alloc_some in Hf as [_ Hc]. rewrite Hc. rewrite no_client_listing; [reflexivity|].
+      apply remove_alloc_gone. assumption.
+    + apply find_alloc_none in Hf. rewrite no_client_listing; [reflexivity|assumption].
+  - inversion Hs; subst. reflexivity.
+Qed.
+
 Lemma chk_C15_model cfg h : forall s, inv cfg s ->
   chk_C15_from (nA (allocs s)) (nP (allocs s)) (nC (allocs s)) (model_trace cfg s h) = true.
 Proof.
   induction h as [|e r IH]; intros s Hinv; cbn [model_trace chk_C15_from]; [reflexivity|].
-  destruct (step cfg s e) as [s' acts] eqn:Hs. cbn [chk_C15_from os_acts os_allocs].
+  destruct (step cfg s e) as [s' acts] eqn:Hs. cbn [chk_C15_from os_acts os_allocs os_ev].
+  pose proof (ended_ok_model _ _ _ _ _ Hinv Hs) as En. rewrite listing_of_map in En.
   destruct (balance_step _ _ _ _ _ Hinv Hs) as (B1 & B2 & B3).
   destruct (count_life_w acts) as (W1 & W2 & W3).
   destruct (listing_counts (allocs s')) as (L1 & L2 & L3). rewrite listing_of_map.
   replace (nA (allocs s) + _ - _) with (nA (allocs s')) by lia.
   replace (nP (allocs s) + _ - _) with (nP (allocs s')) by lia.
   replace (nC (allocs s) + _ - _) with (nC (allocs s')) by lia.
-  rewrite L1, L2, L3, !Z.eqb_refl. cbn. apply IH. eapply inv_step; eauto.
+  rewrite L1, L2, L3, !Z.eqb_refl, En. cbn. apply IH. eapply inv_step; eauto.
 Qed.
 
 (* for every configuration and every history: after every step of the model the Created minus Deleted callbacks
@@ -213,7 +234,7 @@ Proof.
   assert (Repl : forall a x, In a (allocs s) -> same_id a x -> In a' (replace_alloc x (allocs s)) ->
             (exists a0, In a0 (allocs s) /\ same_id a0 a') \/ fresh_alloc cfg s e a').
   { intros a x Ha Hs Hi. left. apply replace_alloc_in in Hi as [->|Hi]; [exists a; auto|exists a'; split; [exact Hi|apply same_id_refl]]. }
-  destruct e as [src tid c r unk|src p d|src n d|relay from d|dt|relay]; cbn [step] in H.
+  destruct e as [src tid c r unk|src p d|src n d|relay from d|dt|relay|csrc|]; cbn [step] in H.
   - destruct unk; [inversion H; subst; apply Same; reflexivity|].
     destruct r as [tr lt fam df rp ep rt mt|lt fam|peers|n p|]; try (inversion H; subst; apply Same; reflexivity);
       destruct (authenticate cfg s c) as [uid|code ch]; try (inversion H; subst; apply Same; reflexivity).
@@ -255,6 +276,9 @@ Proof.
     inversion H; subst; clear H. cbn [allocs] in Hin. left. eapply tick_allocs_id; eauto.
   - unfold h_relay_err in H. destruct (find_relay relay (allocs s)) as [a|]; inversion H; subst; [|apply Same; reflexivity].
     cbn [allocs set_allocs] in Hin. left. apply remove_alloc_in in Hin. exists a'. split; [exact Hin|apply same_id_refl].
+  - unfold h_ctl_close in H. destruct (find_alloc csrc (allocs s)) as [a|]; inversion H; subst; [|apply Same; reflexivity].
+    cbn [allocs set_allocs] in Hin. left. apply remove_alloc_in in Hin. exists a'. split; [exact Hin|apply same_id_refl].
+  - inversion H; subst. destruct Hin.
 Qed.
 
 (* the generic lift with an additional invariant *)
@@ -311,7 +335,7 @@ Proof.
     rewrite listing_of_map. apply forallb_forall. intros o Ho. apply in_map_iff in Ho as (a & <- & Ha).
     unfold relfam in Hr'. rewrite Forall_forall in Hall, Hr'. apply installed_ok_obs; auto. }
   rewrite Hinst. cbn [andb].
-  destruct e as [src tid c rq unk|src p dat|src n dat|relay from dat|dt|relay];
+  destruct e as [src tid c rq unk|src p dat|src n dat|relay from dat|dt|relay|csrc|];
     try (rewrite (topeers_nil_of _ _ _ _ _ Hs I); reflexivity).
   - cbn [step] in Hs. apply h_send_spec in Hs as [_ [->|(a & q & d & pm & -> & -> & -> & Hf & Hp & _)]]; [destruct p as [[?|]|], dat; reflexivity|].
     cbn [topeers filter]. rewrite listing_of_map, find_oalloc_listing, Hf. cbn [option_map obs_of oa_relay].
@@ -420,7 +444,7 @@ Proof.
   { pose proof (inv_step _ _ _ _ _ Hinv Hs) as [_ Hall]. rewrite listing_of_map. apply forallb_forall.
     intros o Ho. apply in_map_iff in Ho as (a & <- & Ha). rewrite Forall_forall in Hall. eapply bijective_obs; eauto. }
   rewrite Hbij, (chandata_out_valid _ _ _ _ _ Hinv Hs). cbn [andb].
-  destruct e as [src tid c rq unk|src p dat|src n dat|relay from dat|dt|relay]; try reflexivity.
+  destruct e as [src tid c rq unk|src p dat|src n dat|relay from dat|dt|relay|csrc|]; try reflexivity.
   destruct rq as [? ? ? ? ? ? ? ?|? ?|?|num peer|]; try reflexivity.
   destruct num as [| |n]; try reflexivity. destruct peer as [[p|]|]; try reflexivity. destruct unk; [reflexivity|].
   rewrite listing_of_map, find_oalloc_listing. destruct (find_alloc src (allocs s)) as [a|] eqn:Hf; [|reflexivity].
@@ -570,7 +594,7 @@ Proof.
   assert (Same : s' = s -> NoDup (map a_relay (allocs s'))) by (intros ->; exact Hu).
   assert (Repl : forall a x, In a (allocs s) -> same_id a x -> NoDup (map a_relay (replace_alloc x (allocs s)))).
   { intros a x Ha (Hc & Hr & _). rewrite (replace_alloc_map_relay a x); auto. }
-  destruct e as [src tid c r unk|src p d|src n d|relay from d|dt|relay]; cbn [step] in H.
+  destruct e as [src tid c r unk|src p d|src n d|relay from d|dt|relay|csrc|]; cbn [step] in H.
   - destruct unk; [inversion H; subst; apply Same; reflexivity|].
     destruct r as [tr lt fam df rp ep rt mt|lt fam|peers|n p|]; try (inversion H; subst; apply Same; reflexivity);
       destruct (authenticate cfg s c) as [uid|code ch]; try (inversion H; subst; apply Same; reflexivity).
@@ -607,6 +631,9 @@ Proof.
     inversion H; subst; clear H. cbn [allocs]. eapply tick_allocs_relays; eauto.
   - unfold h_relay_err in H. destruct (find_relay relay (allocs s)) as [a|]; inversion H; subst; [|apply Same; reflexivity].
     cbn [allocs set_allocs]. apply remove_alloc_relays. exact Hu.
+  - unfold h_ctl_close in H. destruct (find_alloc csrc (allocs s)) as [a|]; inversion H; subst; [|apply Same; reflexivity].
+    cbn [allocs set_allocs]. apply remove_alloc_relays. exact Hu.
+  - inversion H; subst. cbn. constructor.
 Qed.
 
 Lemma no_error_in_life l d m t c ch : Forall RelayGates.is_life l -> ~ In (Error d m t c ch) l.
@@ -680,7 +707,7 @@ Qed.
 Lemma replies_nil_non_req cfg s e s' acts : step cfg s e = (s', acts) ->
   match e with EReq _ _ _ _ _ => False | _ => True end -> replies acts = [].
 Proof.
-  intros Hs Hne. destruct e as [src tid c r unk|src p d|src n d|relay from d|dt|relay]; [contradiction| | | | |]; cbn [step] in Hs.
+  intros Hs Hne. destruct e as [src tid c r unk|src p d|src n d|relay from d|dt|relay|csrc|]; [contradiction| | | | | | |]; cbn [step] in Hs.
   - apply h_send_spec in Hs as [_ [->|(a & q & dd & pm & -> & _)]]; reflexivity.
   - apply h_chandata_spec in Hs as [_ [->|(a & c & -> & _)]]; reflexivity.
   - apply h_peer_spec in Hs as [_ [->|(a & _ & _ & _ & [(c & _ & ->)|(_ & pm & _ & ->)])]]; reflexivity.
@@ -688,6 +715,8 @@ Proof.
     apply replies_life. eapply tick_allocs_life; eauto.
   - unfold h_relay_err in Hs. destruct (find_relay relay (allocs s)); inversion Hs; subst; [|reflexivity].
     apply replies_life. apply close_events_life.
+  - apply replies_life. eapply h_ctl_close_life; eauto.
+  - apply replies_life. eapply h_srv_close_life; eauto.
 Qed.
 
 Lemma chk_C19_step_model cfg s e s' acts :
@@ -695,7 +724,7 @@ Lemma chk_C19_step_model cfg s e s' acts :
   chk_C19_step (listing_of s) {| os_ev := e; os_acts := acts; os_allocs := listing_of s' |} = true.
 Proof.
   intros Hinv Hu Hca Henv Hs. unfold chk_C19_step. cbn [os_ev os_acts os_allocs].
-  destruct e as [src tid c r unk|src p d|src n d|relay from d|dt|relay];
+  destruct e as [src tid c r unk|src p d|src n d|relay from d|dt|relay|csrc|];
     try (rewrite (replies_nil_non_req _ _ _ _ _ Hs I); reflexivity).
   destruct (req_shape _ _ _ _ _ _ _ _ _ Hs) as (evs & tail & Eacts & Hlife & Htail).
   rewrite Eacts, replies_app, (replies_life _ Hlife). cbn [app].
@@ -823,7 +852,7 @@ Proof.
   pose proof (inv_step _ _ _ _ _ Hinv Hs) as Hinv'.
   pose proof (seen_pres _ _ _ _ _ _ Hinv Hs Hs1 Hp1) as Hdef.
   assert (Default : chk_C19_cache seen1 (listing_of s') (model_trace cfg s' r) = true) by (apply IH; assumption).
-  destruct e as [src tid c rq unk|src p d|src n d|relay from d|dt|relay]; try exact Default.
+  destruct e as [src tid c rq unk|src p d|src n d|relay from d|dt|relay|csrc|]; try exact Default.
   destruct rq as [tr lt fam df rp ep rt mt|? ?|?|? ?|]; try exact Default.
   destruct (req_shape _ _ _ _ _ _ _ _ _ Hs) as (evs & tail & Eacts & Hlife & Htail). cbn [req_method] in Htail.
   rewrite Eacts, replies_app, (replies_life _ Hlife). cbn [app].
